@@ -43,6 +43,9 @@ class SymbolicFn:
     fn_name: str
     expr: sympy.Expr
     args: list[str]
+    # Names the expression is written in, if they differ from args (which may
+    # contain the same model name more than once)
+    params: list[str] | None = None
 
     def __repr__(self) -> str:
         """Return default representation."""
@@ -101,11 +104,46 @@ class SymbolicRepr:
 
 def _fn_to_symbolic_repr(k: str, fn: Callable, model_args: list[str]) -> SymbolicFn:
     fn_name = fn.__name__
-    args = cast(list, list_of_symbols(model_args))
+    # A python function cannot take the same parameter name twice
+    params = (
+        None
+        if len(set(model_args)) == len(model_args)
+        else [f"{arg}_{i}" for i, arg in enumerate(model_args)]
+    )
+    args = cast(list, list_of_symbols(model_args if params is None else params))
     if (expr := fn_to_sympy(fn, origin=k, model_args=args)) is None:
         msg = f"Unable to parse fn for '{k}'"
         raise ValueError(msg)
-    return SymbolicFn(fn_name=fn_name, expr=expr, args=model_args)
+    return SymbolicFn(fn_name=fn_name, expr=expr, args=model_args, params=params)
+
+
+def _register_fn(
+    functions: dict[str, tuple[sympy.Expr, list[str]]],
+    fn_name: str,
+    fn: SymbolicFn,
+) -> str:
+    """Insert function under a name that is not yet taken by a different function."""
+    new = (fn.expr, fn.args if fn.params is None else fn.params)
+
+    def positional(entry: tuple[sympy.Expr, list[str]]) -> sympy.Expr:
+        expr, params = entry
+        return cast(
+            sympy.Expr,
+            sympy.sympify(expr).xreplace(
+                {sympy.Symbol(p): sympy.Symbol(f"_arg{i}") for i, p in enumerate(params)}
+            ),
+        )
+
+    name = fn_name
+    idx = 0
+    # The same function called with other model names is the same function
+    while (old := functions.get(name)) is not None and (
+        len(old[1]) != len(new[1]) or positional(old) != positional(new)
+    ):
+        idx += 1
+        name = f"{fn_name}_{idx}"
+    functions[name] = new
+    return name
 
 
 def _to_symbolic_repr(model: Model) -> SymbolicRepr:
@@ -151,8 +189,7 @@ def _codegen_variable(
     k: str, var: SymbolicVariable, functions: dict[str, tuple[sympy.Expr, list[str]]]
 ) -> str:
     if isinstance(init := var.value, SymbolicFn):
-        fn_name = f"init_{init.fn_name}"
-        functions[fn_name] = (init.expr, init.args)
+        fn_name = _register_fn(functions, f"init_{init.fn_name}", init)
         return f"""        .add_variable(
             {k!r},
             initial_value=InitialAssignment(fn={fn_name}, args={init.args!r}),
@@ -168,8 +205,7 @@ def _codegen_parameter(
     k: str, par: SymbolicParameter, functions: dict[str, tuple[sympy.Expr, list[str]]]
 ) -> str:
     if isinstance(init := par.value, SymbolicFn):
-        fn_name = f"init_{init.fn_name}"
-        functions[fn_name] = (init.expr, init.args)
+        fn_name = _register_fn(functions, f"init_{init.fn_name}", init)
         return f"""        .add_parameter(
             {k!r},
             value=InitialAssignment(fn={fn_name}, args={init.args!r}),
@@ -206,11 +242,11 @@ def generate_mxlpy_code_from_symbolic_repr(
     # Derived
     derived_source = []
     for k, fn in model.derived.items():
-        functions[fn.fn_name] = (fn.expr, fn.args)
+        fn_name = _register_fn(functions, fn.fn_name, fn)
         derived_source.append(
             f"""        .add_derived(
                 {k!r},
-                fn={fn.fn_name},
+                fn={fn_name},
                 args={fn.args},
             )"""
         )
@@ -219,13 +255,14 @@ def generate_mxlpy_code_from_symbolic_repr(
     reactions_source = []
     for k, rxn in model.reactions.items():
         fn = rxn.fn
-        functions[fn.fn_name] = (fn.expr, fn.args)
+        rxn_fn_name = _register_fn(functions, fn.fn_name, fn)
 
         stoichiometry: list[str] = []
         for var, stoich in rxn.stoichiometry.items():
             if isinstance(stoich, SymbolicFn):
-                fn_name = f"{k}_stoich_{stoich.fn_name}"
-                functions[fn_name] = (stoich.expr, stoich.args)
+                fn_name = _register_fn(
+                    functions, f"{k}_stoich_{stoich.fn_name}", stoich
+                )
                 stoichiometry.append(
                     f""""{var}": Derived(fn={fn_name}, args={stoich.args!r})"""
                 )
@@ -236,7 +273,7 @@ def generate_mxlpy_code_from_symbolic_repr(
         reactions_source.append(
             f"""        .add_reaction(
                 "{k}",
-                fn={fn.fn_name},
+                fn={rxn_fn_name},
                 args={fn.args},
                 stoichiometry={{{",".join(stoichiometry)}}},
             )"""
@@ -249,6 +286,8 @@ def generate_mxlpy_code_from_symbolic_repr(
         sympy_to_python_fn(fn_name=name, args=args, expr=expr)
         for name, (expr, args) in functions.items()
     )
+    if "math." in functions_source and not any("import math" in i for i in imports):
+        imports = [*imports, "import math\n"]
     source = [
         *imports,
         "from mxlpy import Model, Derived, InitialAssignment\n",
